@@ -96,6 +96,7 @@ func (s *Storer) newRunId(id string) error {
 
 	dir := filepath.Join(s.baseDir, id)
 	_, err := os.Stat(dir)
+	existed := err == nil
 	if err != nil && os.IsNotExist(err) {
 		err = os.MkdirAll(dir, 0777)
 		if err != nil {
@@ -106,14 +107,26 @@ func (s *Storer) newRunId(id string) error {
 		return err
 	}
 
+	if existed && s.runId == id && s.dir == dir && s.dataSet != nil {
+		// already selected: the index in memory is the live one and knows the registered
+		// readers and writers; a re-scan of the directory would forget them
+		return nil
+	}
+
 	s.runId = id
 	s.dir = dir
 
 	rdbAof := s.initDataSet()
 	if rdbAof != nil {
 		s.dataSetMux.Lock()
+		old := s.dataSet
 		s.dataSet = rdbAof
 		s.dataSetMux.Unlock()
+		// readers and writers still registered in the replaced index belong to another run id
+		// or to a renamed directory: end them, later resets cannot reach them any more
+		if old != nil {
+			old.Close()
+		}
 	}
 
 	return nil
